@@ -157,6 +157,19 @@ pub fn result_shape(l: (usize, usize), r: (usize, usize)) -> Option<Result<(usiz
   Some(Err(()))
 }
 
+
+/// kinds whose values can be spelled as literals inside an expression without leaving the kind (suffix or native spelling)
+fn literal_operand(kind: &str, vals: &[String], shape: (usize, usize)) -> Option<String> {
+  let el = |v: &String| -> Option<String> { match kind {
+    "f64" | "bool" | "string" | "c64" => Some(v.clone()),
+    "u8" | "u16" | "u32" => if v.starts_with('-') { None } else { Some(format!("{}{}", v, kind)) },
+    _ => None,
+  } };
+  if shape == (0, 0) { return el(&vals[0]).map(|x| if x.starts_with('-') { format!("({})", x) } else { x }); }
+  let es: Option<Vec<String>> = vals.iter().map(el).collect();
+  es.map(|es| matrix_literal(&es, shape.0, shape.1))
+}
+
 fn pick(vals: &[String], shape: (usize, usize), out: (usize, usize), i: usize, j: usize) -> String {
   if shape == (0, 0) { return vals[0].clone(); }
   let (r, c) = shape;
@@ -321,6 +334,21 @@ impl UnitRunner for C01 {
           }
         }
       }
+      // operand spellings: the same operands parenthesised, written as literals, and mixed must give the identical outcome
+      if !matches!(o, Outcome::Panic(_)) {
+        let (la, lb) = (literal_operand(kind, &lv, ls), literal_operand(kind, &rv, rs));
+        let mut spellings: Vec<(&str, String)> = vec![("parenthesised", format!("(a) {} (b)", op))];
+        if let (Some(la), Some(lb)) = (&la, &lb) { spellings.push(("literals", format!("{} {} {}", la, op, lb))); }
+        if let Some(lb) = &lb { spellings.push(("variable-literal", format!("a {} {}", op, lb))); }
+        if let Some(la) = &la { spellings.push(("literal-variable", format!("{} {} b", la, op))); }
+        for (k, (form, expr)) in spellings.iter().enumerate() {
+          out.evaluations += 1;
+          let of = s.run(&format!("f{}x{} := {}", n, k, expr));
+          let same = match (&o, &of) { (Outcome::Value(x), Outcome::Value(y)) => x == y, (Outcome::Value(_), _) | (_, Outcome::Value(_)) => false, (_, Outcome::Panic(_)) => false, _ => true };
+          if same { if of.is_value() { out.nontrivial += 1; } out.count(&format!("operand_form:{}", form)); }
+          else { out.fail(format!("C01|operand-form-differs|{}:{}:{}", op, form, if ls == (0, 0) && rs == (0, 0) { "scalars" } else if ls == (0, 0) || rs == (0, 0) { "scalar-matrix" } else { "matrices" }), format!("{}; {}; r := {}", da, db, expr), format!("with variables {}, in this spelling {}", o.short(), of.short())); }
+        }
+      }
       if unit % 97 == 0 && n == 0 { out.sample(json!({"program": case, "observed": o.short(), "arm": arm})); }
     }
     // unary operators (once per lhs shape: only when the rhs shape index is 0)
@@ -375,6 +403,7 @@ impl Check for C01 {
       "subject built at opt-level 1 with debug assertions and overflow checks (test-profile semantics)".into(),
       "1x1 matrices mixed with other shapes, mixed-kind operands and complex scalar arithmetic are not judged against a reference (only lifted differentially)".into(),
       "an operator a kind does not support at all (rejected on scalars) is outside the statement".into(),
+      "operand spellings: every application is repeated with both operands parenthesised and, for kinds whose literals keep their kind inside an expression (f64, bool, string, c64, u8, u16, u32), with both / either operand written as a literal; the outcome must be identical to the one with variables".into(),
     ];
     rep.cov("bounds", json!({"kinds": ALL_KINDS, "shapes": shapes(tier), "assignments": na, "units": n}));
     drive_ranges(cfg, rep, range_jobs("", n, 8));
